@@ -109,6 +109,7 @@ func C19(p *core.Program, r *core.Report) {
 	seenTypes := map[string]bool{}
 	allRoots := map[string]bool{}
 	nEmbeds := 0
+	testedForms := map[string]bool{}
 	// Decided on the decision paths of every analysis unit of package embed that builds a
 	// webdoc.Embed (helpers expanded, loops over fixed tables of roots unrolled): a path that
 	// stores the Type of an embed carries a HasRootDomain test that came out true.
@@ -142,7 +143,7 @@ func C19(p *core.Program, r *core.Report) {
 			continue
 		}
 		nBuild := 0
-		var badGate, badPair, badID, badElem []string
+		var badGate, badPair, badID, badElem, badSrc []string
 		byType := map[string]map[string]bool{}
 		for _, pa := range paths {
 			fields := map[string]string{}
@@ -191,6 +192,12 @@ func C19(p *core.Program, r *core.Report) {
 				badPair = append(badPair, fmt.Sprintf("Type=%s after a test for %v: %s", tpq, roots, pa.String()))
 			}
 			seenTypes[tp] = true
+			for _, t := range tested {
+				testedForms[name+": "+t] = true
+				if !isFrameAddress(t) {
+					badSrc = append(badSrc, "tested: "+t)
+				}
+			}
 			// the id is derived from the URL that was tested (or, for a rendered tweet, from an
 			// attribute of the frame whose src was tested)
 			idOK := false
@@ -223,6 +230,7 @@ func C19(p *core.Program, r *core.Report) {
 			r.Add("H3", name+": roots accepted for "+tp, pos, sameSet(keys(rs), wantRoots[tp]), fmt.Sprintf("accepted=%v documented=%v", sortedKeys(rs), wantRoots[tp]))
 		}
 		r.Add("H3", name+": id from tested URL", pos, len(badID) == 0, fmt.Sprintf("%d paths", len(badID)), first(badID)...)
+		r.Add("H3", name+": the tested URL is the element's own address (src; data or <param name=movie> of an object; href of an anchor of a tweet)", pos, len(badSrc) == 0, fmt.Sprintf("%d paths", len(badSrc)), first(badSrc)...)
 		r.Add("H3", name+": element is the tested node", pos, len(badElem) == 0, fmt.Sprintf("%d paths", len(badElem)), first(badElem)...)
 	}
 	r.Floor("H2", 3)
@@ -234,6 +242,7 @@ func C19(p *core.Program, r *core.Report) {
 		ar = append(ar, s)
 	}
 	sort.Strings(ar)
+	r.Stats["tested_url_values"] = sortedKeys(testedForms)
 	r.Add("H3", "allow-list of root domains", "", sameSet(ar, []string{"player.vimeo.com", "twitter.com", "youtube-nocookie.com", "youtube.com"}), fmt.Sprintf("roots tested anywhere in package embed: %v", ar))
 	r.Stats["embed_constructions"] = nEmbeds
 
@@ -498,4 +507,19 @@ func sortedKeys(m map[string]bool) []string {
 	out := keys(m)
 	sort.Strings(out)
 	return out
+}
+
+// isFrameAddress: the value handed to the host test is, apart from being made absolute and the
+// reviewed "&"->"?" repair, exactly one attribute read: the element's src or data, the value of
+// its <param name="movie">, or the href of an anchor inside it (tweets).
+func isFrameAddress(t string) bool {
+	t = strings.TrimSuffix(strings.TrimPrefix(t, "stringutil.CreateAbsoluteURL("), ",$0.PageURL)")
+	t = strings.TrimSuffix(strings.TrimPrefix(t, "strings.Replace("), `,"&","?",1)`)
+	switch t {
+	case `dom.GetAttribute($1,"src")`, `dom.GetAttribute($1,"data")`,
+		`dom.GetAttribute(dom.QuerySelector($1,"param[name=\"movie\"]"),"value")`,
+		`dom.GetAttribute(elem(dom.GetElementsByTagName($1,"a")),"href")`:
+		return true
+	}
+	return false
 }
